@@ -289,8 +289,7 @@ def run_with_fifos(cmd, d, env, case, timeout):
         while proc.poll() is None and time.time() - t0 < timeout:
             try: fd = os.open(path, os.O_WRONLY | os.O_NONBLOCK)
             except OSError as e:
-                if e.errno == errno.ENXIO: time.sleep(0.002); continue     # nobody reads yet
-                return
+                time.sleep(0.002 if e.errno == errno.ENXIO else 0.05); continue     # ENXIO: nobody reads yet; anything else (descriptor table full on a loaded machine ...): try again
             try:
                 os.set_blocking(fd, True)
                 # short pieces only for the head of the file (the reader's first reads see them one by one); the rest in large writes, so that the
